@@ -968,14 +968,14 @@ Proof.
     unfold p_attr_args. rewrite join_rest. cbn [r_avalue]. rewrite <- !app_assoc. cbn [app].
     rewrite expect_lit by reflexivity. cbn [lbind].
     rewrite tok_prop_ok by (try exact Hp; try exact Hv; apply (rest_text_stops st vs [])). cbn [lbind].
-    rewrite props_rest_ok by (try exact Hvs; apply rest_text_len). cbn [lbind].
+    rewrite props_rest_ok by (try exact Hvs; pose proof (rest_text_len st vs []); lia). cbn [lbind].
     rewrite expect_lit by reflexivity. cbn [lbind]. rewrite to_str_of_string. reflexivity.
   - (* transform *)
     assert (Hne : vals <> []) by (destruct vals; [discriminate|discriminate]).
     destruct vals as [|v vs]; [contradiction|].
     unfold p_attr_args. rewrite <- ?app_assoc. cbn [app].
     rewrite expect_lit by reflexivity. cbn [lbind].
-    rewrite pairs_ok by (try exact Hwf; apply pairs_text_len; exact Hwf). cbn [lbind].
+    rewrite pairs_ok by (try exact Hwf; pose proof (pairs_text_len st (v :: vs) [] Hwf); lia). cbn [lbind].
     rewrite expect_lit by reflexivity. reflexivity.
 Qed.
 
